@@ -790,6 +790,10 @@ def c08(tier):
             # the same plan through execute_limited with a generous budget (the fault must still stop the run)
             runs += config_runs(dict(p, mode="limited", budget=10 ** 6),
                                 [("inplace", 0), ("irint", 2), ("bcint", 2), ("jit", 2)])
+            # ... and through the unchecked entry point, inside a pre-grown region (C10's setting)
+            L = len(c["prog"])
+            runs += config_runs(dict(p, mode="unsafe", pregrow=[f["lo"] - L, f["hi"] + L + 1]),
+                                [("bcint", 1), ("jit", 3)])
         return runs
 
     executed = bf.execute(hv, cases, runs_for)
